@@ -30,7 +30,10 @@ def truth_positions(tree):
 
 
 def numeric_looking(src):
-    return any(k in src for k in (".max()", "abs(", "relerr(", "norm(", "dev", "err", ".min()", "metric("))
+    import re
+
+    return any(k in src for k in (".max()", "abs(", "relerr(", "norm(", "dev", "err", ".min()", "metric(", "TOL", "REL", "tol", "tau", "bound")) \
+        or re.search(r"\d\.\d|\de-\d|\d\.0\b", src) is not None
 
 
 def main():
